@@ -11,7 +11,7 @@ from vlib.util import call
 from vlib.props.c05 import KINDS
 
 PROPERTY_ID = "C16"
-OPTIMIZED = ['wallet', 'import']   # clauses run a second time under `python -O` (assert statements stripped)
+OPTIMIZED = ['wallet', 'import', 'cli']   # clauses run a second time under `python -O` (assert statements stripped)
 RULE = ("seeds x both networks x accounts x intervals (0..3 rows) x node paths drawn from a set that contains BIP44/49/84 "
         "purposes and both coin types on both networks; wallets re-imported from reference keys under all 12 versions "
         "(exhaustive per case); every emitted string is classified main/test/untagged by independent decoders")
@@ -231,6 +231,44 @@ def check_import(case, ctx):
                         tagged("C16/import/row-network", what + " row WIF", row[3], net, ctx)
 
 
+# ------------------------------------------------------------------------------------ the command line
+def check_cli(case, ctx):
+    """Every network-tagged string the command prints (or saves) carries the network asked for on the command line."""
+    from vlib import cli
+    from vlib.ref import bip39 as R39
+    testnet = case["testnet"]
+    net = NET[testnet]
+    try:
+        rm = R.master(case["seed"])
+    except R.Invalid:
+        return
+    m = R39.encode(case["seed"][:16])
+    sub = {"from-mnemonic": ["from-mnemonic", m], "from-entropy-hex": ["from-entropy-hex", case["seed"][:16].hex()],
+           "new": ["new", "--mnemonic-len", "12"], "from-bip39-seed": ["from-bip39-seed", (case["seed"] * 4)[:64].hex()],
+           "from-master-xprv": ["from-master-xprv", rm.xprv(R.TPRV if testnet else R.XPRV)]}[case["cmd"]]
+    if case["pw"] and case["cmd"] in ("from-mnemonic", "from-entropy-hex", "new"):
+        sub = sub + ["--password", case["pw"]]
+    argv = (["--testnet"] if testnet and case["cmd"] != "from-master-xprv" else []) + (["--paranoia"] if case["paranoia"] else []) \
+        + ["--account", str(case["account"]), "--interval", "0", "2"] + sub
+    r = cli.run_main(argv)
+    if r["status"] != 0:
+        ctx.count("cli-refused")
+        return
+    data = json.loads(r["out"])
+    strs = []
+    _leaves({k_: v_ for k_, v_ in data.items() if k_ in ("BIP44", "BIP49", "BIP84")}, strs)
+    n_tagged = 0
+    for s_ in strs:
+        c = tagged("C16/cli/network", "CLI %r" % (argv,), s_, net, ctx)
+        n_tagged += c["net"] is not None
+    for sec_name in ("BIP44", "BIP49", "BIP84"):
+        pth = data[sec_name]["account_extended_keys"]["path"]
+        if pth.split("/")[2] != ("1'" if testnet else "0'"):
+            raise Violation("C16/path/coin-type", "CLI %r: %s account path %s on %snet" % (argv, sec_name, pth, net))
+    if n_tagged < 3:
+        raise RuntimeError("CLI output carried no tagged strings")
+
+
 def check_mismatch(case, ctx):
     """BaseWallet(master, testnet): the wallet's network is the `testnet` argument, whatever flag the node carries.
     Only wallet-level outputs are judged (node.extended_*_key() defaults follow the node's own flag by design)."""
@@ -263,6 +301,18 @@ def check_mismatch(case, ctx):
     tagged("C16/mismatch/node-keys-network", "node_extended_keys prv", k2["prv"], net, ctx, ("xprv",))
     for kind in KINDS:
         tagged("C16/mismatch/address-network", kind, getattr(w, kind + "_address")(child), net, ctx)
+    # a root node built by hand with parent=<a node carrying the OTHER network's flag> and its own flag given explicitly
+    par = PrvKeyNode.master_key(case["seed"], not testnet)
+    rch = R.ckd_priv(R.master(case["seed"]), H + 7)
+    hand = PrvKeyNode(key=rch.k.to_bytes(32, "big"), chain_code=rch.c, index=H + 7, depth=1, testnet=testnet, parent=par)
+    wh = PaperWallet(hand, testnet)
+    for label, f in (("extended_public_key() of the hand-built root", hand.extended_public_key),
+                     ("extended_public_key() of its child", lambda: hand.ckd(0).extended_public_key()),
+                     ("Wasabi ExtPubKey", lambda: json.loads(wh.wasabi_json())["ExtPubKey"])):
+        st_, val = call(f)
+        if st_ == "ok":
+            tagged("C16/mismatch/hand-built-node-network", "%snet root built with parent=<%snet-flagged node>, testnet=%s: %s" % (
+                net, NET[not testnet], testnet, label), val, net, ctx, ("xpub",))
     # two wallets of different networks around ONE node object: the first wallet (whose network is the node's own) is
     # questioned again after the second was built and used
     shared = PrvKeyNode.master_key(case["seed"], testnet)
@@ -372,4 +422,14 @@ def clauses():
                    "sub": st.lists(S.normal_indexes(), min_size=1, max_size=2), "paper": st.booleans()}),
                nontrivial=lambda c: True, classes=lambda c: ["depth=%d" % len(c["path"]), "paper" if c["paper"] else "base"],
                n={"quick": 100, "thorough": 5000}, shards={"quick": 16, "thorough": 16}),
+        Clause("cli", check_cli,
+               "the five sub-commands in process, with and without --testnet / --password / --paranoia: every address, WIF and "
+               "extended key in the three address sections of the output and the coin type of the account paths carry the "
+               "network asked for (for from-master-xprv: the key's own)",
+               gen=lambda tier: st.fixed_dictionaries({
+                   "cmd": st.sampled_from(["from-mnemonic", "from-entropy-hex", "new", "from-bip39-seed", "from-master-xprv"]),
+                   "seed": S.seeds(16, 16), "testnet": st.booleans(), "paranoia": st.booleans(), "pw": st.sampled_from(["", "", "pw", "p w"]),
+                   "account": st.sampled_from([0, 1, 9])}),
+               nontrivial=lambda c: c["testnet"], classes=lambda c: [c["cmd"], "pw" if c["pw"] else "no-pw", "test" if c["testnet"] else "main"],
+               n={"quick": 160, "thorough": 4000}, shards={"quick": 16, "thorough": 16}),
     ]
